@@ -18,9 +18,7 @@ theorem headTy_printString (e : Nat) (s : BStr) (rest : Bytes) :
   unfold printString
   split
   · left; rfl
-  · split
-    · left; rfl
-    · right; rfl
+  · right; rfl
 
 theorem rt_tryParseString_some (e : Nat) (s : BStr) (hs : StrOK s) (fuel : Nat) (hf : s.length + 1 < fuel) :
     RT (tryParseString fuel) (printString e s) (some s) anyRest := by
@@ -150,9 +148,6 @@ theorem rt_parseID_get (c : Choices) (fuel : Nat) :
 
 /-! ### assembling the commands -/
 
-/-- a list-mailbox pattern the printer can write without a literal (`Gluon.C10.list_literal_witness`) -/
-def ListPatOK (p : BStr) : Prop := listAtomOK p = true ∨ quotedOK p = true
-
 /-- well-formedness of a command (other than the UID prefix and DONE) together with the loop fuel it
 needs -/
 def BaseOK (fuel : Nat) : Cmd → Prop
@@ -248,10 +243,10 @@ theorem base_led (fuel : Nat) (hf : 14 < fuel) (c : Choices) (cmd : Cmd) (h : Ba
       (rt_parseRename c a b h.1 h.2.1 fuel h.2.2).weaken (fun r hr => (cr_facts hr).1)⟩
   | list m p =>
     exact ⟨c.l, kw "list", _, rfl, by decide, by decide, fun r _ => sp_notChar _ _,
-      (rt_parseListCmd _ c m p h.1 fuel h.2.2).weaken (fun r hr => (cr_facts hr).2.2.1)⟩
+      (rt_parseListCmd _ c m p h.1 h.2.1 fuel h.2.2).weaken (fun r hr => (cr_facts hr).2.2.1)⟩
   | lsub m p =>
     exact ⟨c.l, kw "lsub", _, rfl, by decide, by decide, fun r _ => sp_notChar _ _,
-      (rt_parseListCmd _ c m p h.1 fuel h.2.2).weaken (fun r hr => (cr_facts hr).2.2.1)⟩
+      (rt_parseListCmd _ c m p h.1 h.2.1 fuel h.2.2).weaken (fun r hr => (cr_facts hr).2.2.1)⟩
   | status m attrs =>
     cases attrs with
     | nil => exact absurd rfl h.2.1
